@@ -130,6 +130,12 @@ def judge(family, case, rec):
     # support
     if kind == "uniform" and ((x < lo).any() or (x >= hi).any()):
         rec.violation("C20:uniform-support", family, case, "draws outside [%r, %r): min %r max %r" % (lo, hi, float(x.min()), float(x.max())))
+    # i.i.d. draws of a continuous law do not repeat values (a handful of coincidences among 53-bit doubles is
+    # possible at n = 1e6: expected ~1e-4; ten or more is not)
+    dups = N - len(np.unique(x))
+    rec.max("max-duplicated-values", dups)
+    if dups >= 10:
+        rec.violation("C20:%s-repeated-draws" % kind, family, case, "%d of %d draws repeat an earlier value: not i.i.d." % (dups, N))
     # distribution: DKW band
     ks = S.ks_distance(x, cdf)
     eps = S.dkw_eps(N)
